@@ -157,6 +157,13 @@ fn random_seq_space(name: &'static str, cfg: SvcCfg, n: u64, with_write_error: b
             }
             if with_write_error {
                 c.write_err_at = Some(rng.usize(600));
+                // half of the time the error is a transient one (send timeout after a partial write,
+                // a flush that is interrupted or times out)
+                // (not where a scripted implementation ignores the result of its reply calls: going on
+                // after a transient error garbles the stream by the implementation's own doing)
+                if rng.chance(1, 2) && !c.stream.to_vec().windows(2).any(|w| w == b"!\"") {
+                    c.write_err_kind = rng.range(1, 5) as u8;
+                }
             }
             wrap(c)
         }),
@@ -432,8 +439,9 @@ pub fn c02_streams(tier: Tier) -> Vec<(SvcCfg, Vec<u8>)> {
         s.extend_from_slice(&[9, b'p', b'a', b'r']); // an incomplete frame at the end
         v.push((c, s));
     }
-    // upgrade request followed directly by 0..300 payload bytes, both handler shapes, both kinds of interface
-    for mode in [1u8, 2u8] {
+    // upgrade request followed directly by 0..300 payload bytes, both handler shapes (and V5, which
+    // reads with fill_buf and passes every I/O error on), both kinds of interface
+    for mode in [1u8, 2u8, 5u8] {
         for generated in [false, true] {
             for payload_len in [0usize, 1, 7, 40, 300] {
                 let mut c = cfg.clone();
@@ -743,6 +751,13 @@ fn c03_methods() -> Vec<String> {
         v.push(format!("{}.Echo", &n[..n.len() - 1]));
         v.push(format!("{}x.Echo", n));
         v.push(format!("{}.Fail", n));
+        // an implementation that returns an error value without replying
+        v.push(format!("{}.ErrReply", n));
+    }
+    // generated dispatch: a call whose parameters do not fit is answered with InvalidParameter and
+    // then fails; unknown methods of a generated interface
+    for s in ["org.example.ping.Ping", "org.example.ping.Nope", "org.example.more.TestMore", "org.example.more.Ping"] {
+        v.push(s.to_string());
     }
     for s in [
         "",
@@ -917,6 +932,10 @@ pub fn c03_h_spaces(tier: Tier) -> Vec<Space> {
                 if rng.chance(1, 3) {
                     c.cuts = random_cuts(&mut rng, s.len(), 3);
                 }
+                // the writer takes the replies in pieces (short writes, now and then EINTR)
+                if rng.chance(1, 3) {
+                    c.write_plan = random_plan(&mut rng, 30, 64);
+                }
                 Case::H(c)
             }),
         });
@@ -958,6 +977,9 @@ pub fn c03_h_spaces(tier: Tier) -> Vec<Space> {
                 let mut c = HCase::plain(&cfg, &s);
                 if rng.chance(1, 3) {
                     c.cuts = random_cuts(&mut rng, s.len(), 3);
+                }
+                if rng.chance(1, 4) {
+                    c.write_plan = random_plan(&mut rng, 30, 64);
                 }
                 Case::H(c)
             }),
@@ -1598,6 +1620,7 @@ pub fn plan_for(prop: &str, tier: Tier) -> Option<Plan> {
             let mut sp = c04_h_spaces(tier);
             sp.extend(crate::ksim::c04_spaces(tier));
             sp.extend(crate::lsim::c04_l_spaces(tier));
+            sp.extend(crate::lsim::c04_stop_spaces(tier));
             sp.extend(crate::lsim::c04_k2_spaces(tier));
             let mut p = h_plan(
                 sp,
